@@ -25,3 +25,17 @@ Definition option_eqb {A} (eqb : A -> A -> bool) (a b : option A) : bool :=
   end.
 
 Definition zlist_eqb := list_eqb Z.eqb.
+
+(** Dense byte-string literals for cases files: [hb n 0x...] is the [n]-byte big-endian
+    string of the hexadecimal numeral (one pass over the bits of the numeral; a list of
+    [Z] literals costs about twice as much to parse). *)
+Fixpoint hb_pos (p : positive) (bit cur : Z) (acc : list Z) : list Z :=
+  match p with
+  | xH => (cur + bit) :: acc
+  | xO q => if bit =? 128 then hb_pos q 1 0 (cur :: acc) else hb_pos q (2 * bit) cur acc
+  | xI q => if bit =? 128 then hb_pos q 1 0 ((cur + bit) :: acc) else hb_pos q (2 * bit) (cur + bit) acc
+  end.
+
+Definition hb (n : Z) (v : Z) : list Z :=
+  let l := match v with Zpos p => hb_pos p 1 0 [] | _ => [] end in
+  repeat 0 (Z.to_nat n - length l) ++ l.
